@@ -173,18 +173,19 @@ def buildFile (L : Lib F T) (s : State F) (id : Id) : State F × Resp F T :=
     let c := L.create f
     (⟨put s.files id c.1, s.next⟩, ⟨if c.2.isSome then .libErr else .ok, .file c.1⟩)
 
-/-- GET /files/{id}/contents: `service.GetFileContents` (service.go:132-155).  Every failure leaves the handler as a
-`getFileContentsResponse`, which `encodeTextResponse` (routing.go:286-294) does not write: 200 with an empty body. -/
+/-- GET /files/{id}/contents: `service.GetFileContents` (service.go:132-155).  A failure leaves the handler as a
+`getFileContentsResponse` carrying the error; since /repo commit f9ebbe96 `encodeTextResponse` hands that to
+`encodeResponse`, which answers with the error's status (the wrapped "not found" maps to 500, like `build`). -/
 def getFileContents (L : Lib F T) (s : State F) (id : Id) (crlf : Bool) : State F × Resp F T :=
   match find s.files id with
-  | none => (s, ⟨.ok, .none⟩)
+  | none => (s, ⟨.error, .none⟩)
   | some f =>
     let c := L.create f                                                -- :137 on the stored pointer
     (⟨put s.files id c.1, s.next⟩,
-     if c.2.isSome then ⟨.ok, .none⟩ else
+     if c.2.isSome then ⟨.libErr, .none⟩ else
      match L.writeText c.1 crlf with                                   -- :141-152
      | .ok t => ⟨.ok, .text t⟩
-     | .error _ => ⟨.ok, .none⟩)
+     | .error _ => ⟨.libErr, .none⟩)
 
 /-- GET|POST /files/{id}/validate: `service.ValidateFile` (service.go:157-163); every error is wrapped in
 `errInvalidFile` (files.go:449-451) → 400, including "not found" -/
